@@ -143,6 +143,34 @@ def fam_mixes(rng, n, nsched, faults=False, cancels=False, fresh=False,
     return ('mixed-transfers', jobs)
 
 
+def fam_systematic(names, rng, limit=None, over=None):
+    jobs = []
+    for name in names:
+        jobs += S.single_deviations(S.base(name, **(over or {})), limit, rng)
+    return ('systematic-one-deviation', jobs)
+
+
+def fam_cleanup_faults(rng, n):
+    """A failing/cancelled file download whose cleanup close() fails too."""
+    jobs = []
+    for name in ('dl-path-mp', 'dl-path-1'):
+        sc0 = S.base(name)
+        steps, ncalls = S.probe(sc0)
+        firsts = [{'on': 'fs_write', 'nth': k, 'x': 0} for k in (1, 2, 3)]
+        firsts += [{'on': 's3', 'seq': q, 'x': 0} for q in range(1, ncalls + 1)]
+        firsts += [{'on': 'fs_rename', 'nth': 1, 'x': 0}]
+        for f in firsts:
+            sc = copy.deepcopy(sc0)
+            sc['faults'] = [f, {'on': 'fs_close', 'nth': 1, 'x': 0}]
+            jobs += S.schedules(sc, n, rng)
+        for g in range(1, steps + 1, 4):
+            sc = copy.deepcopy(sc0)
+            sc['faults'] = [{'on': 'fs_close', 'nth': 1, 'x': 0}]
+            sc['cancel'] = {'how': 'future', 'x': 0, 'gate': g}
+            jobs += S.schedules(sc, 2, rng)
+    return ('failing-cleanup', jobs)
+
+
 def fam_reenter(names, rng, n):
     jobs = []
     for name in names:
@@ -216,6 +244,9 @@ def families(pid, tier, rng):
                                         'up_chunks': 1, 'down_chunks': 1}}),
             fam_reenter(['up-path-mp', 'dl-ns-mp', 'delete', 'copy-1'], rng, 2 * k),
             fam_mixes(rng, 25 * k, 3, faults=True, cancels=True),
+            fam_systematic(['dl-path-mp', 'dl-ns-mp', 'up-path-mp', 'up-ns-mp',
+                            'copy-mp', 'dl-seek-1', 'delete'] if not T else S.ALL,
+                           rng, limit=None if T else 400),
         ]
     if pid == 'C05':
         return [
@@ -233,6 +264,7 @@ def families(pid, tier, rng):
             fam_env_faults(['dl-path-mp', 'dl-path-1'], rng, per=4 * k),
             fam_streams(['dl-path-mp', 'dl-path-1'], rng, per=1),
             fam_cancel(names, rng, ('future', 'exit-kbi'), stride=1, per=1 * k),
+            fam_cleanup_faults(rng, 3 * k),
         ]
     if pid == 'C07':
         return [
@@ -305,10 +337,12 @@ def families(pid, tier, rng):
 
 
 CLAUSES = {
-    'C01': 'C01_', 'C02': 'C02_', 'C03': 'C03_', 'C04': 'C04_', 'C05': 'C05_',
-    'C06': 'C06_', 'C07': 'C07_', 'C08': 'C08_', 'C09': 'C09_', 'C10': 'C10_',
+    'C01': 'C01_', 'C02': ('C02_', 'C16_'), 'C03': ('C03_', 'C05_', 'C06_'),
+    'C04': 'C04_', 'C05': 'C05_',
+    'C06': 'C06_', 'C07': ('C07_', 'C05_', 'C06_'), 'C08': 'C08_', 'C09': 'C09_',
+    'C10': 'C10_',
     'C11': 'C11_', 'C12': 'C12_', 'C14': 'C14_', 'C16': 'C16_', 'C17': 'C17_',
-    'C18': 'C18_',
+    'C18': ('C18_', 'C01_', 'C02_', 'C03_'),
 }
 
 
